@@ -3,11 +3,13 @@
  * By that continuation's (verified) contract the effect of any such sequence on the witness request is: nothing, or -- if it is
  * pending -- one completion with a send error and removal.  gh_iqm: the request table those continuations captured. */
 OutgoingIqManager *gh_iqm;
+OutgoingIqManager *nondet_iqm(void);
+#define RESET_OLD_IN (__CPROVER_old(gh_iqm->m_requests.w_present) && __CPROVER_old(gh_iqm->m_requests.w.second.interface.gh_gen) == g_wgen)
 void StreamAckManager_resetCache(StreamAckManager *m)
 __CPROVER_requires(gh_iqm != NULL && UMAP_REP(gh_iqm->m_requests) && GHOST_RANGES)
 __CPROVER_assigns(gh_iqm->m_requests.w_present, gh_iqm->m_requests.w.second.interface.finished, gh_other, gh_completions, gh_value, gh_others_completed)
 __CPROVER_ensures(UMAP_REP(gh_iqm->m_requests) && 0 <= gh_others_completed && gh_others_completed <= 1000)
 __CPROVER_ensures(gh_iqm->m_requests.w_present ==> (__CPROVER_old(gh_iqm->m_requests.w_present) && gh_completions == __CPROVER_old(gh_completions) && VALUE_UNCHANGED))
 __CPROVER_ensures(!__CPROVER_old(gh_iqm->m_requests.w_present) ==> (!gh_iqm->m_requests.w_present && gh_completions == __CPROVER_old(gh_completions) && VALUE_UNCHANGED))
-__CPROVER_ensures((__CPROVER_old(gh_iqm->m_requests.w_present) && !gh_iqm->m_requests.w_present) ==> (gh_completions == __CPROVER_old(gh_completions) + 1 && gh_value.kind == IQ_ERROR))
+__CPROVER_ensures((__CPROVER_old(gh_iqm->m_requests.w_present) && !gh_iqm->m_requests.w_present) ==> (gh_completions == __CPROVER_old(gh_completions) + (RESET_OLD_IN ? 1 : 0) && (RESET_OLD_IN ? gh_value.kind == IQ_ERROR : VALUE_UNCHANGED)))
 ;
